@@ -55,6 +55,12 @@ def cases(tier, seed):
                "eps_SY": float(gen.pick(rng, [2.2e-16, 2.2e-16, 1e-3, 1e-2, 0.1])),
                "rewrite": gen.pick(rng, ["new_deque", "new_deque", "same_deque", "same_arrays"]),
                "undefined_at": int(rng.integers(0, 8)) if i % 6 == 5 else None, "fd_step": float(gen.pick(rng, [1e-3, 1e-2, 0.1])) if i % 3 == 1 else None}
+    for i in range(200 if tier == "quick" else 6000):
+        ps = gen.rand_spec(rng, ("qp", "qp_quartic"), nmax=8, nmin=2, boxes=("none", "mixed", "boxed", "lower"), starts=("interior", "face"), condmax=1e2)
+        yield {"kind": "switch", "problem": ps, "maxcor": int(rng.integers(2, 7)), "maxiter": int(rng.integers(6, 14)), "switch_at": int(rng.integers(2, 7)),
+               "variant": "newest_only", "vseed": int(rng.integers(0, 2**31 - 1)), "strength": float(rng.uniform(0.2, 3.0)),
+               "eps_SY": float(gen.pick(rng, [2.2e-16, 2.2e-16, 1e-3])), "rewrite": gen.pick(rng, ["new_deque", "same_deque", "same_arrays", "same_arrays"]),
+               "undefined_at": None, "fd_step": None}
     nr = 200 if tier == "quick" else 8000
     for i in range(nr):
         ps = gen.rand_spec(rng, ("qp", "qp_quartic"), nmax=8, nmin=2, boxes=("none", "mixed", "boxed", "lower"),
@@ -75,6 +81,24 @@ def make_fB(P, spec):
     if spec["variant"] == "reg":
         lam = float(np.exp(rng.uniform(-2, 3)))
         return (lambda x: P.f(x) + 0.5 * lam * float(x @ x)), (lambda x: P.g(x) + lam * x), f"reg lambda={lam:.3g}"
+    if spec["variant"] == "newest_only":
+        # a concave term along the NEWEST step only, fixed at the moment of the switch (see arm_newest_only): the pair formed by the last
+        # stored point and the new iterate loses its curvature, the older pairs mostly keep theirs
+        dyn = {"u": None, "gamma": 0.0, "anchor": None}
+
+        def fB(x):
+            if dyn["u"] is None:
+                return P.f(x)
+            t = float(dyn["u"] @ (x - dyn["anchor"]))
+            return P.f(x) - 0.5 * dyn["gamma"] * t * t
+
+        def gB(x):
+            if dyn["u"] is None:
+                return P.g(x)
+            return P.g(x) - dyn["gamma"] * float(dyn["u"] @ (x - dyn["anchor"])) * dyn["u"]
+
+        fB.dyn = dyn
+        return fB, gB, "concave along the newest step"
     Qm, _ = np.linalg.qr(rng.standard_normal((n, n)))
     eigs = np.linalg.eigvalsh(P.meta["A"])
     # sized relative to the typical curvature so that a sizeable fraction of the stored pairs loses curvature
@@ -82,6 +106,19 @@ def make_fB(P, spec):
     Q = (Qm * ev) @ Qm.T
     Q = (Q + Q.T) / 2
     return (lambda x: P.f(x) + 0.5 * float(x @ (Q @ x))), (lambda x: P.g(x) + Q @ x), "indefinite"
+
+
+def arm_newest_only(spec, P, fB, x, X):
+    dyn = getattr(fB, "dyn", None)
+    if dyn is None or dyn["u"] is not None or not len(X):
+        return
+    sv = np.asarray(x, dtype=float) - np.asarray(X[-1], dtype=float)
+    ss = float(sv @ sv)
+    if not ss > 0:
+        return
+    kappa = float(sv @ (P.g(np.array(x, dtype=float, copy=True)) - P.g(np.array(X[-1], dtype=float, copy=True)))) / ss
+    dyn["u"], dyn["anchor"] = sv / np.sqrt(ss), np.array(X[-1], dtype=float, copy=True)
+    dyn["gamma"] = abs(kappa) * (1.0 + float(spec.get("strength", 1.0)))
 
 
 def rewritten_history(spec, X, G, gB):
@@ -190,6 +227,7 @@ def switch_trace(spec, extra_cfg=None):
         calls["n"] += 1
         if j == spec["switch_at"] and not S.on:
             S.on = True
+            arm_newest_only(spec, P0, fB, x, X)
             Gn = rewritten_history(spec, X, G, gB)
             xo = np.array(X[-1], copy=True) if len(X) else np.array(x, copy=True)
             return fB(np.array(x, copy=True)), fB(xo), gB(np.array(x, copy=True)), Gn
@@ -215,6 +253,7 @@ def run_switch(spec, out):
             S.on = True
             info["switched_at_call"] = j
             info["nX_at_switch"] = len(X)
+            arm_newest_only(spec, P0, fB, x, X)
             Gn = rewritten_history(spec, X, G, gB)
             xo = np.array(X[-1], copy=True) if len(X) else np.array(x, copy=True)
             return fB(np.array(x, copy=True)), fB(xo), gB(np.array(x, copy=True)), Gn
